@@ -260,3 +260,69 @@ PROPS["C08"] = dict(
     assumptions=["brute-force merge by (value, sequence index, position) is the specification of the split",
                  SAN_ASSUME],
 )
+
+# ----------------------------------------------------------------------------- C01 / C02
+_BT_QUICK = [(4, 4), (4, 7), (5, 4), (8, 8), (7, 16)]
+_BT_THOROUGH = _BT_QUICK + [(4, 5), (6, 4), (5, 5), (16, 4), (4, 16), (6, 7), (9, 5), (33, 4), (4, 33),
+                            (16, 16), (33, 33), (12, 6), (5, 9), (64, 21), (8, 4)]
+
+
+def _bt_units(configs):
+    u = {}
+    for (l, i) in configs:
+        for g in range(6):
+            u["bt_%d_%d_g%d" % (l, i, g)] = dict(
+                src=["harness/C01_btree.cpp"], tlx=["tlx/die/core.cpp"],
+                flags=["-DVERIF_LEAF=%d" % l, "-DVERIF_INNER=%d" % i, "-DVERIF_GROUP=%d" % g,
+                       "-DTLX_BTREE_DEBUG"],
+                flags_asan=["-g1"])
+    return u
+
+
+def _bt_runs(configs, variant, count, prop, timeout=1800, heavy_div=15):
+    # groups 4 and 5 (std::string / Tracked elements) cost 10-15x more per case
+    return [R("bt_%d_%d_g%d" % (l, i, g), variant, 1, max(4, count // (heavy_div if g >= 4 else 1)),
+              ["prop=" + prop], timeout=timeout)
+            for (l, i) in configs for g in range(6)]
+
+
+_BT_RULE = ("a case = 4 operation histories (2 container instantiations of the unit's group x binary/linear "
+            "in-node search) of 60..1500 operations over two live containers: insert (value, hinted, range), "
+            "erase(key), erase_one, erase(iterator, often inside duplicate runs), find/count/exists/lower_bound/"
+            "upper_bound/equal_range through const and non-const overloads on present, absent and out-of-range "
+            "keys, operator[], ==,!=,<,<=,>,>= between the two containers, copy-construct, assignment (also self "
+            "and onto non-empty), swap, clear, bulk_load of N items with N around multiples of the node "
+            "capacities, destruction; key universe 8..5000; grow/shrink/oscillate phases. Units: (leaf,inner) "
+            "capacity pairs x 6 groups covering set/multiset/map/multimap x less/greater/stateful-table order x "
+            "int/std::string/Tracked keys and Tracked mapped values. A class is a distinct (container<key,"
+            "order>, capacities, search, operation, structural effect: in-place / leaf split / inner split / "
+            "root growth / merges / root collapse) tuple observed.")
+
+PROPS["C01"] = dict(
+    units=_bt_units(_BT_THOROUGH),
+    quick=_bt_runs(_BT_QUICK, "plain", 1500, "C01"),
+    thorough=_bt_runs(_BT_THOROUGH, "plain", 40000, "C01", timeout=7200)
+    + _bt_runs(_BT_QUICK, "asan", 1500, "C01", timeout=7200),
+    rule=_BT_RULE + " After every operation: returned value / iterator rank / size / full forward and reverse "
+    "iteration (canonicalised inside equal-key runs of multimaps) compared with the std container.",
+    require=dict(any=["operations", "effect:inner-split", "effect:root-collapse", "effect:leaf-merge"]),
+    assumptions=["libstdc++ std::set/multiset/map/multimap are the reference",
+                 "entries with equivalent keys may be in any relative order: positions are compared as ranks of "
+                 "bounds, find/insert results only for membership in [lower_bound, upper_bound)", SAN_ASSUME],
+)
+PROPS["C02"] = dict(
+    units=_bt_units(_BT_THOROUGH),
+    quick=_bt_runs(_BT_QUICK[:4], "asan", 100, "C02", heavy_div=6),
+    thorough=_bt_runs(_BT_THOROUGH, "asan", 2500, "C02", timeout=7200, heavy_div=6),
+    rule=_BT_RULE + " After every mutating operation: tree.verify() (die -> exception), an independent walker "
+    "through TLX_BTREE_FRIENDS (equal leaf depth, fill bounds, key order inside and across nodes, separator "
+    "== max of child, leaf chain both directions == in-order leaves, stats == counted, strictness for unique "
+    "trees), allocator accounting (arena-checking allocator: live blocks == nodes of all live trees, no "
+    "foreign/unknown/double free, nothing live at the end) and, for Tracked keys/values, the lifetime ledger "
+    "(no element alive inside released storage, none destroyed twice, none left at the end); ASan for any "
+    "access to released storage.",
+    require=dict(any=["operations", "invariant_checks", "walker_node_visits", "effect:inner-split",
+                      "effect:leaf-merge", "ledger_constructed"]),
+    assumptions=["element slots of a node are default-constructed with the node and destroyed with it: "
+                 "'constructed and destroyed exactly once' is checked per slot object", SAN_ASSUME],
+)
